@@ -42,17 +42,17 @@ def idxIn : List Nat → Nat → Option Nat
   | y :: ys, l => if l = y then some 0 else (idxIn ys l).map (· + 1)
 
 /-- one pixel through `for i, label in enumerate(uniq): if labels == label: r = f i x r` -/
-def loopPix {α : Type} (f : Nat → Rat → α → α) : List Nat → Nat → α → Nat → Rat → α
+def loopPix {α β : Type} (f : Nat → β → α → α) : List Nat → Nat → α → Nat → β → α
   | [], _, r, _, _ => r
   | label :: rest, i, r, l, x => loopPix f rest (i + 1) (if l = label then f i x r else r) l x
 
 /-- one sweep of masked assignment over the whole signal -/
-def assignMask {α : Type} (g : Rat → α → α) (label : Nat) : List α → List Nat → List Rat → List α
+def assignMask {α β : Type} (g : β → α → α) (label : Nat) : List α → List Nat → List β → List α
   | r :: rs, l :: ls, x :: xs => (if l = label then g x r else r) :: assignMask g label rs ls xs
   | rs, _, _ => rs
 
 /-- the loop as coded: the result array is swept once per unique label -/
-def loopAssign {α : Type} (f : Nat → Rat → α → α) : List Nat → Nat → List α → List Nat → List Rat → List α
+def loopAssign {α β : Type} (f : Nat → β → α → α) : List Nat → Nat → List α → List Nat → List β → List α
   | [], _, res, _, _ => res
   | label :: rest, i, res, labs, xs => loopAssign f rest (i + 1) (assignMask (f i) label res labs xs) labs xs
 
@@ -64,6 +64,12 @@ def hetCall (s o : List Rat) (labs : List Nat) (xs : List Rat) : List Rat :=
 def wrapCall (ms : List M) (labs : List Nat) (xs : List Rat) : List Rat :=
   loopAssign (fun i x r => match ms[i]? with | some m => m.applyPix ⟨i, x⟩ | none => r) (uniqSorted labs) 0
     (xs.map fun _ => 0) labs xs
+
+/-- `HeterogeneousModel.__call__` for arbitrary per-label models `g j : β → α` on pixels of any type `β` (e.g. colour
+pixels `(r, g, b)` through a per-label `KernelInterpolation`, the use in `MultichromaticTracerAnalysis`):
+`output = zeros(signal.shape[:2]); output[mask_j] = model_j(signal[mask_j])` -/
+def wrapCallG {α β : Type} (zero : α) (g : Nat → β → α) (labs : List Nat) (xs : List β) : List α :=
+  loopAssign (fun i x _ => g i x) (uniqSorted labs) 0 (xs.map fun _ => zero) labs xs
 
 /-- one model of a `CombinedModel` on the whole signal -/
 def M.call (m : M) (labs : List Nat) (xs : List Rat) : List Rat :=
